@@ -34,7 +34,7 @@ def run(m, chk):
         "weights of both operands; the ValueError interval test of KnotVector.split precedes the asserting heavy layer; no divisor on the split path is a bare node parameter (cut at 0). "
         "Equality of each piece with the original and the junction multiplicity are not decided."
     )
-    chk.decides = ["PURE/FRESH(split, |)", "DEP-MUST weights of the pieces / of the joined curve", "GATE(max(A) = min(B))", "X-ASSERT(split)", "D", 'INTERVAL (pieces / join built on the operand knot values)', 'MULT-KEEP']
+    chk.decides = ["PURE/FRESH(split, |)", "DEP-MUST weights of the pieces / of the joined curve", "GATE(max(A) = min(B))", "X-ASSERT(split)", "D", 'INTERVAL (pieces / join built on the operand knot values)', 'MULT-KEEP', 'DEP-MAY(pieces depend on the weights)', 'ELEM-COVER (the join reads the first control point of the right operand)']
     chk.not_decided = ["each piece equals the original on its sub-interval", "junction knot multiplicity after joining"]
     r.pure("PURE", SPLIT, ["self", "nodes"])
     r.fresh_result("FRESH", SPLIT)
@@ -64,6 +64,11 @@ def run(m, chk):
             if miss:
                 hv_ok = False
                 cp = miss
+        # rational curve: P'_j = sum_i M_ji w_i P_i / sum_i M_ji w_i — the pieces' control points are a function of the weights
+        wmiss = [o for o in objs if not R.dep_has(r.deep_dep(ctx, heap.get((o, CURVE_FIELDS[1])), heap=heap), ("PF", 0, CURVE_FIELDS[2]))]
+        chk.ob("DEP-MAY", f"{SPLIT}: control points of each piece depend on self.weights (rational curve)", not wmiss, loc=r.loc(ctx, ctx.cfg.nodes[nid].ast),
+               detail="" if not wmiss else f"{SPLIT}: the control points of the returned pieces are computed from `self.ctrlpoints` alone (matrix @ ctrlpoints) and never from `self.weights`: for a rational curve with non-constant weights the pieces are not the original curve on their sub-interval (the weighted numerators w_i*P_i have to be transformed and divided by the new weights)",
+               func=SPLIT, construct="pieces' control points ignore self.weights")
         chk.ob("DEP-MAY", f"{SPLIT}: control points of each piece depend on the curve's points, knot vector and the cut nodes", hv_ok, loc=r.loc(ctx, ctx.cfg.nodes[nid].ast),
                detail="" if hv_ok else f"{SPLIT}: control points of the pieces do not depend on {r.fmt_deps(fi, cp)}", func=SPLIT, construct="pieces ignore an input")
     chk.floor("DEP-MUST", "return sites of split that return curves", n, 1)
@@ -83,9 +88,23 @@ def run(m, chk):
     for nid, v in sorted(ctx.ret_sites.items()):
         heap = ctx.ret_states[nid].heap
         have, objs = weights_component(r, ctx, v, heap, must=True)
+        # tests whose outcome is fixed on every path to this return: what they read has been consulted for this result
+        consulted = set()
+        for t in ctx.cfg.nodes:
+            if t.kind != "test":
+                continue
+            for lab in ("t", "f"):
+                if not ctx.cfg.edge_dominates(t.id, lab, nid):
+                    continue
+                # `a or b` came out false / `a and b` came out true: every operand was evaluated
+                allops = isinstance(t.ast, ast.BoolOp) and ((isinstance(t.ast.op, ast.Or) and lab == "f") or (isinstance(t.ast.op, ast.And) and lab == "t"))
+                for e in (t.ast.values if allops else [t.ast]):
+                    tv = ctx.val(e)
+                    if tv is not None:
+                        consulted |= set(tv.all_mdep())
         for who, idx in (("self", 0), (fi.params[1], 1)):
             want = ("PF", idx, CURVE_FIELDS[2])
-            ok = want in have
+            ok = want in have or want in consulted
             chk.ob("DEP-MUST", f"{OR}: weights of the joined curve must-depend on {who}.weights", ok, loc=r.loc(ctx, ctx.cfg.nodes[nid].ast),
                    detail="" if ok else f"{OR}: the joined curve is built without reading `{who}.weights` (the result's weights are the constant None on every path): joining the pieces of a rational curve silently gives a polynomial curve",
                    func=OR, construct=f"{'self' if idx == 0 else 'other'}.weights not consulted")
@@ -97,6 +116,28 @@ def run(m, chk):
         need = r.srcs(fi, ["self.ctrlpoints", f"{fi.params[1]}.ctrlpoints"])
         miss = [w for w in need if not R.dep_has(mayd, w)]
         chk.ob("DEP-MAY", f"{OR}: control points of the joined curve depend on both operands", not miss, loc=r.loc(ctx, ctx.cfg.nodes[nid].ast), detail="" if not miss else f"{OR}: joined control points ignore {r.fmt_deps(fi, miss)}", func=OR, construct="joined points ignore an operand")
+    # ELEM-COVER: the first control point of the right operand is read somewhere (it is B(min B): dropping it is only right when
+    # the junction is continuous, and then it has to be compared with A's last point first)
+    reads = []
+    par = {}
+    for pnode in ast.walk(fi.node):
+        for ch in ast.iter_child_nodes(pnode):
+            par[ch] = pnode
+    for a in ast.walk(fi.node):
+        if isinstance(a, ast.Attribute) and a.attr == "ctrlpoints" and isinstance(a.ctx, ast.Load):
+            v = ctx.val(a)
+            if v is None:
+                continue
+            d = v.all_dep()
+            if ("PF", 1, CURVE_FIELDS[1]) in d and ("PF", 0, CURVE_FIELDS[1]) not in d:
+                p_ = par.get(a)
+                dropped = isinstance(p_, ast.Subscript) and p_.value is a and isinstance(p_.slice, ast.Slice) and isinstance(p_.slice.lower, ast.Constant) and isinstance(p_.slice.lower.value, int) and p_.slice.lower.value >= 1
+                reads.append((a, dropped))
+    chk.floor("ELEM-COVER", f"reads of the right operand's control points in {OR}", len(reads), 1)
+    okc = any(not dr for _, dr in reads)
+    chk.ob("ELEM-COVER", f"{OR}: the first control point of `{fi.params[1]}` is read", okc, loc=r.loc(ctx, reads[0][0]) if reads else r.loc(ctx, fi.node),
+           detail="" if okc else f"{OR}: every read of the right operand's control points is `…ctrlpoints[k:]` with k >= 1 — its first control point B(min B) never reaches the result and is never compared with A's last point: for a junction that is not continuous (A | B)(u) differs from B(u) on the first span of B",
+           func=OR, construct="first control point of the right operand dropped")
     rule_d(r, chk, [SPLIT], floor=4)
     from .extra import interval_from_operand, mult_keep
 
